@@ -63,6 +63,8 @@ def check(run):
             raise
         run.note('C01-CLOSE', 'discovery is not in the shape the structural rule reads (%s): the closed loop C01-LOOP decides alone' % e)
     run.attempt(cache, run, p, km)
+    from . import rexpy_eval
+    run.attempt(rexpy_eval.hook_rule, run, p, 'C01')
     run.attempt(datelang, run, p)
     run.attempt(rexclosure, run, p)
     from .common import observed_rule
